@@ -118,6 +118,17 @@ def _order_kept(ctx, b, i, t, how):
                 Pa = prov.origins(b, op_place(a)["l"], deep=True)
                 if {r for r in Pa.roots if r[0] in ("param", "call", "agg")} & eroots:
                     return True, "dominated by an order comparison of the element"
+    for x, bb in enumerate(b.bbs):
+        if x == i or not cfg.dominates(b, x, i):
+            continue
+        for st in bb["s"]:
+            if st["k"] == "=" and st["r"]["k"] == "bin" and st["r"].get("op") in ("Lt", "Le", "Gt", "Ge"):
+                for a in (st["r"]["a"], st["r"]["b"]):
+                    if op_is_const(a):
+                        continue
+                    Pa = prov.origins(b, op_place(a)["l"], deep=True)
+                    if {r for r in Pa.roots if r[0] in ("param", "call", "agg")} & eroots:
+                        return True, "dominated by an order comparison of the element"
     # (d) the element's key is generated to exceed the last one (monotone generator): a call that
     # itself compares with / increments the last key -- accepted only when the function has an
     # order comparison at all and the element derives from its result
